@@ -54,7 +54,7 @@ def classes(tokens):
         if is_lt(t) and nsig in ('++', '--'):
             out.add('KF-04c')
         if t in RESTRICTED and nxt is not None and is_lt(nxt):
-            if nsig in (';', ':') or prv in ('.', 'get', 'set'):
+            if nsig in (';', ':') or prv in ('get', 'set'):
                 out.add('KF-04f')
         if t in RESTRICTED and nxt is not None and is_comment(nxt):
             out.add('KF-04d')
@@ -153,20 +153,6 @@ def classes(tokens):
                 before = tokens[q] if q >= 0 else None
                 if before in ('continue', 'break', 'var') or (before == ',' and 'var' in sig):
                     out.add('KF-05f')
-    # a call of a property NAMED if/for/while: calmjs takes its `(` for a statement header, so a `/` after the `)` is a regex
-    for i, t in enumerate(sig):
-        if t in ('if', 'for', 'while') and i > 0 and sig[i - 1] == '.' and i + 1 < len(sig) and sig[i + 1] == '(':
-            depth, k = 0, i + 1
-            while k < len(sig):
-                if sig[k] == '(':
-                    depth += 1
-                elif sig[k] == ')':
-                    depth -= 1
-                    if depth == 0:
-                        break
-                k += 1
-            if k + 1 < len(sig) and starts_slash(sig[k + 1]):
-                out.add('KF-05g')
     # the `)` closing the header of a `with` STATEMENT (not a property named `with`) directly followed by a `/`
     for i, t in enumerate(sig):
         if t == 'with' and (i == 0 or sig[i - 1] != '.') and i + 1 < len(sig) and sig[i + 1] == '(':
@@ -181,9 +167,6 @@ def classes(tokens):
                 k += 1
             if k + 1 < len(sig) and starts_slash(sig[k + 1]):
                 out.add('KF-05a')
-    for i in range(len(sig) - 2):
-        if sig[i] == '.' and IDENT.match(sig[i + 1] or '') and starts_slash(sig[i + 2]):
-            out.add('KF-05c')
     # a function at the start of a statement whose `}` is followed by something that continues an expression
     fstart = any(t == 'function' and (i == 0 or sig[i - 1] in (';', '{', '}', ')', ':', 'else', 'do'))
                  for i, t in enumerate(sig))
